@@ -46,6 +46,35 @@ fn universe(thorough: bool) -> Vec<Request> {
     u
 }
 
+// second universe: frontends that share a route key (listener, host, path) and differ only in non-key fields
+// (cluster, tags), on an HTTP and an HTTPS listener
+fn universe_fronts() -> Vec<Request> {
+    let mut u: Vec<Request> = vec![];
+    let l_http = SocketAddress::new_v4(127, 0, 0, 1, 8080);
+    let l_https = SocketAddress::new_v4(127, 0, 0, 1, 8443);
+    u.push(RequestType::AddHttpListener(HttpListenerConfig { address: l_http, sticky_name: "S".into(), front_timeout: 60, back_timeout: 30, connect_timeout: 3, request_timeout: 10, ..Default::default() }).into());
+    if let Ok(cfg) = sozu_command_lib::config::ListenerBuilder::new_https(l_https).to_tls(None) {
+        u.push(RequestType::AddHttpsListener(cfg).into());
+    }
+    for c in ["c1", "c2"] {
+        u.push(RequestType::AddCluster(Cluster { cluster_id: c.into(), ..Default::default() }).into());
+    }
+    let mut tags = BTreeMap::new();
+    tags.insert("owner".to_string(), "team-a".to_string());
+    for (c, host, path, tagged) in [("c1", "a.example", "/", false), ("c2", "a.example", "/", false), ("c1", "a.example", "/", true), ("c1", "b.example", "/", false)] {
+        let f = RequestHttpFrontend { cluster_id: Some(c.into()), address: l_http, hostname: host.into(), path: PathRule::prefix(path.to_string()), position: RulePosition::Tree.into(),
+                                      tags: if tagged { tags.clone() } else { BTreeMap::new() }, ..Default::default() };
+        u.push(RequestType::AddHttpFrontend(f.clone()).into());
+        u.push(RequestType::RemoveHttpFrontend(f.clone()).into());
+        if !tagged || c == "c1" {
+            let g = RequestHttpFrontend { address: l_https, ..f };
+            u.push(RequestType::AddHttpsFrontend(g.clone()).into());
+            u.push(RequestType::RemoveHttpsFrontend(g).into());
+        }
+    }
+    u
+}
+
 fn normalise(mut s: ConfigState) -> ConfigState {
     s.request_counts.clear();
     s.backends.retain(|_, v| !v.is_empty());
@@ -58,15 +87,11 @@ fn normalise(mut s: ConfigState) -> ConfigState {
 fn describe(s: &ConfigState) -> String {
     let b: BTreeMap<_, Vec<String>> = s.backends.iter().map(|(c, v)| (c.clone(), v.iter().map(|b| format!("{}@{}", b.backend_id, b.address)).collect())).collect();
     format!("clusters={:?} backends={:?} http_listeners={} tcp_listeners={} http_fronts={:?}", s.clusters.keys().collect::<Vec<_>>(), b,
-            s.http_listeners.values().map(|l| format!("{}(active={})", l.address, l.active)).collect::<Vec<_>>().join(","), s.tcp_listeners.len(), s.http_fronts.keys().collect::<Vec<_>>())
+            s.http_listeners.values().map(|l| format!("{}(active={})", l.address, l.active)).collect::<Vec<_>>().join(","), s.tcp_listeners.len(),
+            s.http_fronts.iter().map(|(k, f)| format!("{k}->{:?}{}", f.cluster_id, if f.tags.is_some() { "+tags" } else { "" })).chain(s.https_fronts.iter().map(|(k, f)| format!("tls:{k}->{:?}", f.cluster_id))).collect::<Vec<_>>())
 }
 
-fn main() {
-    let a: Vec<String> = std::env::args().collect();
-    let thorough = a.get(1).map(|s| s == "thorough").unwrap_or(false);
-    let depth = if thorough { 4 } else { 3 };
-    let cap = if thorough { 1500 } else { 400 };
-    let u = universe(thorough);
+fn explore(u: &[Request], depth: usize, cap: usize, states_total: &mut usize, pairs: &mut u64, nontrivial: &mut u64, failures: &mut Vec<(String, String)>, shapes: &mut HashSet<String>) {
     // breadth-first reachable states (distinct after normalisation)
     let mut states: Vec<ConfigState> = vec![ConfigState::new()];
     let mut seen: HashSet<String> = HashSet::new();
@@ -75,7 +100,7 @@ fn main() {
     for _ in 0..depth {
         let mut next = vec![];
         for &i in &frontier {
-            for r in &u {
+            for r in u {
                 if states.len() >= cap { break; }
                 let mut s = states[i].clone();
                 if s.dispatch(r).is_ok() {
@@ -86,19 +111,16 @@ fn main() {
         }
         frontier = next;
     }
-    let mut pairs = 0u64;
-    let mut nontrivial = 0u64;
-    let mut failures: Vec<(String, String)> = vec![];
-    let mut shapes: HashSet<String> = HashSet::new();
+    *states_total += states.len();
     for (i, sa) in states.iter().enumerate() {
         if !sa.diff(sa).is_empty() && shapes.insert("diff(A,A) not empty".into()) {
             failures.push((format!("A = {}", describe(sa)), format!("diff(A, A) has {} requests", sa.diff(sa).len())));
         }
         for (j, sb) in states.iter().enumerate() {
             if i == j { continue; }
-            pairs += 1;
+            *pairs += 1;
             let d = sa.diff(sb);
-            if d.len() >= 2 { nontrivial += 1; }
+            if d.len() >= 2 { *nontrivial += 1; }
             let mut s = sa.clone();
             let mut rejected = None;
             for r in &d {
@@ -109,7 +131,8 @@ fn main() {
                 // shape = which maps differ (keeps the report small; distinct shapes are reported once)
                 let n = normalise(s.clone()); let t = normalise(sb.clone());
                 let shape = format!("rejected={} clusters={} backends={} listeners={} fronts={}", rejected.is_some(), n.clusters != t.clusters, n.backends != t.backends,
-                                    n.http_listeners != t.http_listeners || n.tcp_listeners != t.tcp_listeners, n.http_fronts != t.http_fronts);
+                                    n.http_listeners != t.http_listeners || n.tcp_listeners != t.tcp_listeners || n.https_listeners != t.https_listeners,
+                                    n.http_fronts != t.http_fronts || n.https_fronts != t.https_fronts);
                 if shapes.insert(shape.clone()) {
                     failures.push((format!("A = [{}]  B = [{}]  diff = {} requests", describe(sa), describe(sb), d.len()),
                                    format!("{shape}; replay of diff(A,B) on A gives [{}]{}", describe(&s), rejected.map(|e| format!("; a diff request was rejected: {e}")).unwrap_or_default())));
@@ -117,7 +140,21 @@ fn main() {
             }
         }
     }
+}
+
+fn main() {
+    let a: Vec<String> = std::env::args().collect();
+    let thorough = a.get(1).map(|s| s == "thorough").unwrap_or(false);
+    let depth = if thorough { 4 } else { 3 };
+    let cap = if thorough { 1500 } else { 400 };
+    let u = universe(thorough);
+    let u2 = universe_fronts();
+    let (mut states, mut pairs, mut nontrivial) = (0usize, 0u64, 0u64);
+    let mut failures: Vec<(String, String)> = vec![];
+    let mut shapes: HashSet<String> = HashSet::new();
+    explore(&u, depth, cap, &mut states, &mut pairs, &mut nontrivial, &mut failures, &mut shapes);
+    explore(&u2, depth + 2, cap, &mut states, &mut pairs, &mut nontrivial, &mut failures, &mut shapes);
     let fjson: Vec<String> = failures.iter().map(|(i, o)| format!("{{\"input\": {i:?}, \"observed\": {o:?}}}")).collect();
-    println!("{{\"bound\": \"states reachable by <= {depth} dispatched requests over {} request templates (2 clusters, 2 backend ids x {} addresses, 3 http frontends, 2 listeners), capped at {cap} distinct states\", \"states\": {}, \"pairs\": {pairs}, \"nontrivial_pairs\": {nontrivial}, \"failures\": [{}]}}",
-             u.len(), if thorough { 3 } else { 2 }, states.len(), fjson.join(", "));
+    println!("{{\"bound\": \"two universes, each explored breadth-first and capped at {cap} distinct states: (1) states reachable by <= {depth} dispatched requests over {} request templates (2 clusters, 2 backend ids x {} addresses, 3 http frontends, 2 listeners); (2) states reachable by <= {} requests over {} templates (HTTP + HTTPS listener, 2 clusters, frontends sharing a route key and differing only in cluster or tags)\", \"states\": {states}, \"pairs\": {pairs}, \"nontrivial_pairs\": {nontrivial}, \"failures\": [{}]}}",
+             u.len(), if thorough { 3 } else { 2 }, depth + 2, u2.len(), fjson.join(", "));
 }
